@@ -1,4 +1,5 @@
 """C55 Worktree stream protocol — writer/reader tables and header layout (TAB)."""
+import re
 from gx import tab
 from gx.flow import Flow
 
@@ -7,11 +8,13 @@ EXPLANATION = ("For gix-worktree-stream's private pipe protocol: mode_to_byte/by
                "from their MIR switches and must be mutually inverse and total over the enum; the reader's header buffer length equals the "
                "writer's HEADER_LEN; both sides put path length in the first usize slot, stream length in the second, mode in byte 0 and hash kind "
                "in byte 1 (provenance of the split_at results); the chunk-length prefix of write_stream is a u16 and its buffer is capped at "
-               "u16::MAX. Equality of archive contents with `git archive` is not decided.")
+               "u16::MAX on every path to a read (must-pass through the Ok edge of clear_and_set_len(buf, BUF_LEN)); in gix_archive::write every io::copy into the shared scratch "
+               "buffer is preceded by a clear() of it on every path (sibling agreement of the tar and zip writers). Equality of archive contents with `git archive` is not decided.")
 P = "gix_worktree_stream::protocol::"
 
 
 def run(db, chk):
+    archive_buffer_rule(db, chk)
     m2b = tab.enum_to_const(db.one("^" + P + "mode_to_byte$"))
     b2m = tab.const_to_enum(db.one("^" + P + "byte_to_mode$"), 2)
     chk.floor("tables in mode_to_byte/byte_to_mode", len(m2b) + len(b2m), 2)
@@ -127,3 +130,38 @@ def run(db, chk):
     chk.ob("chunk-length-fits-u16", "write_stream BUF_LEN", bl <= 65535, "BUF_LEN=%d" % bl, "%s:%d" % (ws.file, ws.line), key="chunk-length-fits-u16")
     sized = [c for c in ws.calls_to(r"protocol::clear_and_set_len$") if any(r[0] == "constdef" and r[1].endswith("::BUF_LEN") for r in Flow(ws).roots(c.args[1], stop_named=False))]
     chk.ob("chunk-buffer-capped", "write_stream buffer", len(sized) == 1, "buffer must be sized by BUF_LEN before reading", "%s:%d" % (ws.file, ws.line), key="chunk-buffer-capped")
+    # the cap holds on every path: no path from entry reaches a read into the buffer without passing a clear_and_set_len(buf, BUF_LEN) whose
+    # success edge it follows (the `n as u16` prefix is lossless only because len(buf) <= u16::MAX)
+    reads = ws.calls_to(r"io::Read::read\??$|io::Read>::read$|Read::read$")
+    chk.floor("write_stream: read into the chunk buffer", len(reads), 1)
+    wfl = Flow(ws)
+    good = set()
+    for c in sized:
+        good |= wfl.result_edges(c)["good"]
+    for rd_ in reads:
+        chk.ob("chunk-buffer-capped-on-every-path", "write_stream read@%d" % rd_.line, bool(good) and wfl.cut_off([rd_.block], good),
+               "a read into the shared buffer is reachable without the buffer having been resized to BUF_LEN: a larger buffer lets one read exceed 65535 bytes and `n as u16` truncates the prefix",
+               rd_.where(), key="chunk-buffer-capped-every-path")
+
+
+def archive_buffer_rule(db, chk):
+    """gix_archive::write: the per-entry writers share one scratch Vec<u8> parameter across entries; every io::copy that appends an entry's bytes to it
+    must be preceded, on every path from the function's entry, by a clear() of that same buffer (sibling agreement: tar and zip writers)."""
+    fns = [f for f in db.by_crate["gix_archive"] if f.kind != "promoted" and re.search(r"write::append_\w+_entry$", f.name)]
+    chk.floor("gix_archive per-entry writers", len(fns), 2)
+    n = 0
+    for f in fns:
+        fl = Flow(f)
+        bufs = [i for i in range(1, f.argc + 1) if "Vec<u8>" in f.locals[i] and f.locals[i].startswith("&mut")]
+        for c in f.calls_to(r"io::copy::copy$|std::io::copy$"):
+            dst = {r[1] for r in fl.roots(c.args[1], stop_named=False) if r[0] == "arg"}
+            hit = [b for b in bufs if b in dst]
+            if not hit:
+                continue
+            n += 1
+            clears = [x for x in f.calls_to(r"Vec::<T, A>::clear$|Vec<T, A>>::clear$|::clear$") if {r[1] for r in fl.roots(x.args[0], stop_named=False) if r[0] == "arg"} & set(hit)]
+            ok = bool(clears) and c.block not in f.reach_from(0, avoid=[x.block for x in clears])
+            chk.ob("scratch-buffer-cleared-before-reuse", "%s io::copy@%d" % (f.name.split("::")[-1], c.line), ok,
+                   "an entry's bytes are appended to the shared scratch buffer without clearing it first: the second such entry of an archive carries the first one's bytes as well",
+                   c.where(), key="scratch-clear|%s" % f.name.split("::")[-1])
+    chk.floor("copies into the shared scratch buffer", n, 2)
